@@ -2,7 +2,7 @@
 PROPERTY = "C20"
 LEVEL = "proof"
 CONTRACT_MODULES = ["contracts.specfuns", "contracts.collection"]
-FUNCTIONS = ["toasty.collection.SimpleFitsCollection._scan_hdus"]
+FUNCTIONS = ["toasty.collection.SimpleFitsCollection._scan_hdus", "toasty.collection.CollectionLoader.load_paths", "toasty.collection.load"]
 LEMMAS = []
 SLOW = ()
 TRUSTED_BASE = [
@@ -36,14 +36,14 @@ def replay(clause, contract, model, seed):
             for key in (" ", [" ", " "], None):
                 coll = SimpleFitsCollection(paths, hdu_index=sel, wcs_key=key)
                 try:
-                    items = list(coll._scan_hdus())
+                    items = [(pth, idx, _FirstPixel(hdu), wk) for pth, idx, hdu, wk in coll._scan_hdus()]
                 except Exception as e:   # noqa
                     return {"clause": "no_unexpected_raise/%s" % type(e).__name__,
                             "inputs": {"hdu_index": sel, "wcs_key": key, "n_paths": 2, "hdu_index_kind": kind(sel)},
                             "observed": "raised %r" % (e,)}
                 for i, (pth, idx, hdu, wk) in enumerate(items):
                     want = sel[i] if isinstance(sel, list) else (sel if sel is not None else 1)
-                    val = float(hdu.data.flat[0]) if hdu.data is not None else None
+                    val = hdu.value
                     if pth != paths[i] or idx != want or val != 10 * i + want:
                         return {"clause": "yields_each/hdu_is_that_hdu_of_that_file",
                                 "inputs": {"hdu_index": sel, "wcs_key": key, "n_paths": 2, "hdu_index_kind": kind(sel)},
@@ -55,3 +55,10 @@ def replay(clause, contract, model, seed):
 
 def kind(sel):
     return "list" if isinstance(sel, list) else ("none" if sel is None else "scalar")
+
+
+class _FirstPixel(object):
+    """first pixel of an HDU, read while the file is still open"""
+
+    def __init__(self, hdu):
+        self.value = float(hdu.data.flat[0]) if hdu.data is not None else None
